@@ -388,7 +388,7 @@ def prod_model_ops(rng, tier):
             res.append(("point %s %s %s" % (c, arg(P[0]), arg(P[1])), ["point", name, P[0], P[1]], False))
             res.append(("contains %s %s" % (c, pa(P)), ["contains", name, P], False))
         # cheap scalars (cost is proportional to the bit length of e mod n)
-        for P in [G, Q, None, Gu]:
+        for P in [G, Q, None, Gu, Gv, (G[0] - p, G[1])]:
             for e in [0, 1, 2, 3, n, n + 1, n + 2, -n, 2 * n + 5, -n + 3] + ([7, 65537] if tier == "thorough" else []):
                 res.append(("multiply %s %s %s" % (c, pa(P), arg(e)), ["multiply", name, P, e], False))
         res.append(("multiply %s %s %s" % (c, pa(G), arg(6)), ["multiply_self", name, 6], False))
@@ -769,7 +769,7 @@ def toy_prop_inputs(rng, tier):
         pts = curve_points(p, a, b)
         first = p not in seen_p
         seen_p.add(p)
-        for j, ent in enumerate(ENTROPIES if (first or tier == "thorough") else ENTROPIES[:2]):
+        for j, ent in enumerate(ENTROPIES if (first or tier == "thorough") else ENTROPIES[:1]):
             G = pts[rng.randrange(len(pts))]
             res.append(("toy_generator", {"curve": [p, a, b, n], "G": list(G), "entropy": ent, "pfx": j == 0,
                                           "ks": [rng.randrange(-2 * n, 2 * n + 1) for _ in range(6 if tier == "quick" else 60)]}))
